@@ -1,9 +1,159 @@
-/- line protocol stub for component `FileM` (filled in by the component's owner) -/
+import Tulz.Model.FileSpec
+import Tulz.Drv.Util
+/- line protocol for the File model: `file <op> <args…>`; same lines and same output format as
+   harness/file/file_harness.cpp -/
 namespace Tulz.Drv.FileM
+open Tulz.Stdio Tulz.FileM
 
-abbrev State := Unit
-def init : State := ()
+structure State where
+  disk : Disk := { files := [], dirs := [] }
+  objs : List (String × File) := []
 
-def step (s : State) (_args : List String) : State × String := (s, "bad-op")
+def init : State := {}
+
+def hexVal (c : Char) : Nat :=
+  if c.isDigit then c.toNat - 48 else (c.toNat ||| 32) - 97 + 10
+
+def unhexGo : List Char → Array UInt8 → Array UInt8
+  | a :: b :: r, acc => unhexGo r (acc.push (UInt8.ofNat (hexVal a * 16 + hexVal b)))
+  | _, acc => acc
+
+def unhex (s : String) : Bytes :=
+  if s == "-" then [] else (unhexGo s.toList #[]).toList
+
+def hexDigit (n : Nat) : Char := if n < 10 then Char.ofNat (48 + n) else Char.ofNat (87 + n)
+
+def hexGo : List UInt8 → Array Char → Array Char
+  | [], acc => acc
+  | b :: r, acc => hexGo r ((acc.push (hexDigit (b.toNat / 16))).push (hexDigit (b.toNat % 16)))
+
+def hex (b : Bytes) : String :=
+  if b.isEmpty then "-" else String.ofList (hexGo b #[]).toList
+
+def hex64 (x : UInt64) : String :=
+  String.ofList ((List.range 16).map fun i => hexDigit ((x.toNat >>> (4 * (15 - i))) % 16))
+
+/-- data longer than 64 bytes is reported as `#<length>:<FNV-1a 64>` -/
+def showBytes (b : Bytes) : String :=
+  if b.length ≤ 64 then hex b
+  else
+    let h := b.foldl (fun (h : UInt64) x => (h ^^^ x.toUInt64) * 1099511628211) 14695981039346656037
+    "#" ++ toString b.length ++ ":" ++ hex64 h
+
+def cellsGo : List Cell → Array UInt8 → Option (Array UInt8)
+  | [], acc => some acc
+  | some b :: r, acc => cellsGo r (acc.push b)
+  | none :: _, _ => none
+
+def showCells (c : List Cell) : String :=
+  match cellsGo c #[] with
+  | some a => showBytes a.toList
+  | none => "?uninitialised:" ++ toString c.length
+
+def parseMode : String → Mode
+  | "rt" => .readText | "r" => .read | "wt" => .writeText | "w" => .write
+  | "at" => .appendText | "a" => .append | _ => .none
+
+def modeName : Mode → String
+  | .readText => "rt" | .read => "r" | .writeText => "wt" | .write => "w"
+  | .appendText => "at" | .append => "a" | .none => "none"
+
+def errName : Err → String
+  | .notFound => "!NotFound" | .notFile => "!NotFile" | .invalidMode => "!InvalidMode"
+  | .nullFile => "!NotOpen" | .bufferOverrun => "!BufferOverrun" | .hang => "!Hang"
+
+def findObj (n : String) : List (String × File) → Option File
+  | [] => none
+  | (k, f) :: r => if k = n then some f else findObj n r
+
+def setObj (n : String) (f : File) : List (String × File) → List (String × File)
+  | [] => [(n, f)]
+  | (k, g) :: r => if k = n then (k, f) :: r else (k, g) :: setObj n f r
+
+def tellStr (f : File) : String :=
+  match tell f with
+  | .ok n => toString n
+  | .error _ => "?"
+
+def origin (s : String) : Origin :=
+  if s == "0" then .start else if s == "1" then .current else .end
+
+def withObj (s : State) (n : String) (k : File → State × String) : State × String :=
+  match findObj n s.objs with
+  | none => (s, "!no-object")
+  | some f => k f
+
+def put (s : State) (n : String) (f : File) : State := { s with objs := setObj n f s.objs }
+
+def step (s : State) (args : List String) : State × String :=
+  match args with
+  | ["reset"] => (init, "ok")
+  | ["root", _] => (s, "ok")
+  | ["mkfile", n, h] => ({ s with disk := s.disk.write n (unhex h) }, "ok")
+  | ["mkdir", n] => ({ s with disk := { s.disk with dirs := n :: s.disk.dirs } }, "ok")
+  | ["fsize", n] =>
+    match s.disk.read n with
+    | some b => (s, "n=" ++ toString b.length)
+    | none => (s, "!NotFound")
+  | ["cat", n] =>
+    match s.disk.read n with
+    | some b => (s, "data=" ++ showBytes b)
+    | none => (s, "!NotFound")
+  | ["open", n, p, m] =>
+    match findObj n s.objs with
+    | none =>
+      -- constructor form: a throwing constructor leaves no object
+      match «open» s.disk File.closed p (parseMode m) with
+      | (d, f, .ok ()) => ({ disk := d, objs := setObj n f s.objs }, if isOpen f then "ok" else "null")
+      | (d, _, .error e) => ({ s with disk := d }, errName e)
+    | some f0 =>
+      match «open» s.disk f0 p (parseMode m) with
+      | (d, f, .ok ()) => ({ disk := d, objs := setObj n f s.objs }, if isOpen f then "ok" else "null")
+      | (d, f, .error e) => ({ disk := d, objs := setObj n f s.objs }, errName e)
+  | ["drop", n] => withObj s n fun _ => ({ s with objs := s.objs.filter (fun e => e.1 ≠ n) }, "ok")
+  | ["isopen", n] => withObj s n fun f => (s, if isOpen f then "b=1" else "b=0")
+  | ["mode", n] => withObj s n fun f => (s, "m=" ++ modeName (getMode f))
+  | ["close", n] => withObj s n fun f =>
+    match close f with
+    | (_, true) => (s, "!NotOpen")
+    | (f', false) => (put s n f', "ok")
+  | ["write", n, h, esz] => withObj s n fun f =>
+    match (WCall.raw (unhex h) esz.toNat!).run s.disk f with
+    | .error e => (s, errName e)
+    | .ok (d, f', r) => ({ put s n f' with disk := d }, "n=" ++ toString r ++ " tell=" ++ tellStr f')
+  | ["writea", n, h] => withObj s n fun f =>
+    match (WCall.array (unhex h)).run s.disk f with
+    | .error e => (s, errName e)
+    | .ok (d, f', r) => ({ put s n f' with disk := d }, "n=" ++ toString r ++ " tell=" ++ tellStr f')
+  | ["writes", n, h] => withObj s n fun f =>
+    match (WCall.string (unhex h)).run s.disk f with
+    | .error e => (s, errName e)
+    | .ok (d, f', r) => ({ put s n f' with disk := d }, "n=" ++ toString r ++ " tell=" ++ tellStr f')
+  | ["read", n] => withObj s n fun f =>
+    match read s.disk f with
+    | .error e => (s, errName e)
+    | .ok (f', c) => (put s n f', "data=" ++ showCells c ++ " tell=" ++ tellStr f')
+  | ["readstr", n] => withObj s n fun f =>
+    match readStr s.disk f with
+    | .error e => (s, errName e)
+    | .ok (f', c) => (put s n f', "data=" ++ showCells c ++ " tell=" ++ tellStr f')
+  | ["readbuf", n, sz, cnt] => withObj s n fun f =>
+    match readBuf s.disk f sz.toNat! cnt.toNat! with
+    | .error e => (s, errName e)
+    | .ok (f', got, r) => (put s n f', "n=" ++ toString r ++ " data=" ++ showBytes got ++ " tell=" ++ tellStr f')
+  | ["seek", n, off, org] => withObj s n fun f =>
+    match seek s.disk f off.toInt! (origin org) with
+    | .error e => (s, errName e)
+    | .ok (f', r) => (put s n f', "r=" ++ toString r ++ " tell=" ++ tellStr f')
+  | ["tell", n] => withObj s n fun f =>
+    match tell f with
+    | .error e => (s, errName e)
+    | .ok r => (s, "n=" ++ toString r)
+  | ["size", n] => withObj s n fun f =>
+    match size s.disk f with
+    | .error e => (s, errName e)
+    | .ok (f', r) => (put s n f', "n=" ++ toString r ++ " tell=" ++ tellStr f')
+  | ["flush", n] => withObj s n fun f => (s, if isOpen f then "r=0" else "!NotOpen")
+  | _ => (s, "bad-op")
 
 end Tulz.Drv.FileM
